@@ -311,6 +311,13 @@ CONFIGS = {
         '[]',
         '["cmvn"]',
     ),
+    # frames stacked three by three, the incomplete last run padded with the mode's default fill value
+    "stft_stack_pad": (
+        '{"name": "stft", "bank": {"name": "fbank", "num_filts": 4, "sampling_rate": 8000}, '
+        '"frame_length_ms": 10, "frame_shift_ms": 5, "use_log": false}',
+        '["dither"]',
+        '[{"name": "stack", "num_vectors": 3, "pad_mode": "constant"}]',
+    ),
     "si_dither": (
         '{"name": "si", "bank": {"name": "gabor", "scaling_function": "mel", "num_filts": 3, '
         '"sampling_rate": 8000}, "frame_shift_ms": 5}',
@@ -323,6 +330,9 @@ CONFIGS = {
 def make_world(rng, wid, n, config=None, ids=None, short_at=None):
     ids = ids or rng.sample(ID_POOL, n)
     w = _make_world(rng, wid, n, config, ids)
+    if w["config"] == "stft_stack_pad":
+        # frame counts 13, 8, 11, 7, ...: every utterance ends with an incomplete run of three frames
+        w["lens"] = [40 * f for f in (13, 8, 11, 7, 10, 14, 16, 5)][: len(w["lens"])]
     if w["config"] == "stft_cmvn_muted":
         w["lens"] = [max(ln, 150) for ln in w["lens"]]  # every recording yields frames (the muted ones too)
     if short_at is not None and short_at < len(ids):
@@ -861,6 +871,7 @@ def run(ctx):
         add_world(3, "si_dither", exhaustive_ws=(0, 2), n_random=100, short_at=1)
         add_world(4, "raw_dither_preemph", exhaustive_ws=(0, 2, 3), n_random=300)
         add_world(5, "stft_cmvn_muted", exhaustive_ws=(0, 2, 3), n_random=100)
+        add_world(5, "stft_stack_pad", exhaustive_ws=(0, 2, 3), n_random=100)
         add_world(5, None, exhaustive_ws=(0, 2), n_random=300)
         add_world(6, None, exhaustive_ws=(0, 3), n_random=300)
         add_world(8, None, exhaustive_ws=(0,), n_random=300)
@@ -872,6 +883,7 @@ def run(ctx):
         add_world(4, "stft_dither_deltas", exhaustive_ws=(0,), n_random=30)
         add_world(4, "raw_dither_preemph", exhaustive_ws=(1,), kinds=(1,), n_random=20)
         add_world(4, "stft_cmvn_muted", exhaustive_ws=(0, 2), n_random=8)
+        add_world(4, "stft_stack_pad", exhaustive_ws=(0, 2), n_random=8)
     # regression of the finding fixed by 7cfe6bc: ids that end in whitespace which
     # str.strip() would remove ("a\t" vs "a"), see NOTES.md
     add_world(3, "raw_dither", ids=["a\t", "a", "b+c"], exhaustive_ws=(0,), n_random=ctx.scale(4, 40))
